@@ -14,7 +14,7 @@ def validate(w, evfile):
 
 def run(rep, tier, seed):
     thorough = tier == "thorough"
-    rep.assumptions += ["spec/Total.tla: the operand space = templates (every operator, dice form, postfix form, method, built-in, st form) x value classes (22 representatives, split where a crash can depend on the split) written by TLC as the complete product; a second product places cyclic values (a container inside itself, a dict that is its own prototype or one of a prototype loop; two distinct objects of each shape) in every hole with partners from a short list; "
+    rep.assumptions += ["spec/Total.tla: the operand space = templates (every operator, dice form, postfix form, method, built-in, st form) x value classes (22 representatives, split where a crash can depend on the split) written by TLC as the complete product; a second product places cyclic values (a container inside itself, a dict that is its own prototype or one of a prototype loop; two distinct objects of each shape) in every hole with partners from a short list; a third product nests every self-containing construct to depths 25..120000, closed and left open; half of the VMs have a CallbackSt installed; "
                         "each case is placed in nesting contexts (statement list, if, loop, loop with continue, template hole, template block, function body, computed value, array, assignment, parentheses, after an array on the previous line)",
                         "observation sequence per input: Parse, RunAfterParsed, GetDetailText, Run again, GetDetailText twice, GetAsmText, Ret.ToString/ToRepr/ToJSON, Matched/RestInput, RunExpr; VMs serve up to 4 inputs so that each meets state left by earlier ones",
                         "configurations drawn per VM: 2^4 family flags, DisableStmts/NDice/Bitwise, IgnoreDiv0, min/normal/max mode, DefaultDiceSideExpr in {'', 20, d6, x7, v_str, 1/0}, OpCountLimit in {300, 3000, 20000}, ParseExprLimit in {3000, 10^7}",
@@ -24,8 +24,8 @@ def run(rep, tier, seed):
                         "quick runs every 1- and 2-hole case (1-hole in all contexts) and every 8th 3-hole case; thorough runs the whole product in every context"]
     with Work("c01") as w:
         d = w.path("plan"); os.makedirs(d)
-        r = tlc_must_pass(run_tlc(w, "Total", "Total.cfg", env={"HEADER": d + "/header.json", "OUT1": d + "/p1.ndjson", "OUT2": d + "/p2.ndjson", "OUT3": d + "/p3.ndjson", "OUT4": d + "/p4.ndjson"}, workers=1, timeout=600), "Total")
-        ncases = sum(1 for f in ("p1", "p2", "p3", "p4") for _ in open("%s/%s.ndjson" % (d, f)))
+        r = tlc_must_pass(run_tlc(w, "Total", "Total.cfg", env={"HEADER": d + "/header.json", "OUT1": d + "/p1.ndjson", "OUT2": d + "/p2.ndjson", "OUT3": d + "/p3.ndjson", "OUT4": d + "/p4.ndjson", "OUT5": d + "/p5.ndjson"}, workers=1, timeout=600), "Total")
+        ncases = sum(1 for f in ("p1", "p2", "p3", "p4", "p5") for _ in open("%s/%s.ndjson" % (d, f)))
         hdr = json.load(open(d + "/header.json"))
         run_vh(["corpus", d + "/corpus.ndjson"])
         a = ["c01-exec", "-dir", d, "-kind", "plan", "-out", w.path("plan_obs.ndjson")] + (["-allctx"] if thorough else ["-t3every", "8"])
@@ -76,6 +76,8 @@ def run(rep, tier, seed):
                         ("%s panicked in %s: %s" % (e["panicVia"], e["panicFunc"], e["panicMsg"])) if e["panicVia"] else
                         ("the process died: " + e["panicMsg"][:200]) if e["fatal"] else "no return within 30 s" if e["hang"] else "the process text differs between two requests"),
                     "features": ["c01"] + why, "replay": {"event": e, "why": why}}
+            if e.get("macroOffInHole") and e["panicVia"] and e["panicFunc"].endswith("evaluate") and "index out of range" in e["panicMsg"]:
+                viol["key"] = "macro-off-inside-template-block"      # KF-C01-1 (spec/Gate.tla: MacroInHole)
             rep.violation(viol)
         for d in drift[:5]:
             print("DRIFT property=C01 " + d)
